@@ -1,5 +1,5 @@
 (* C13 — all storage backends, and a reopened database, behave identically. *)
-From TSS Require Import Seq AStore L0 InMem Sqlite proofs.RefineSqlite proofs.RefineInMem proofs.Inv proofs.Agree proofs.Pure proofs.L0Props.
+From TSS Require Import Seq AStore L0 InMem Sqlite Http proofs.RefineSqlite proofs.RefineInMem proofs.Inv proofs.Agree proofs.Pure proofs.L0Props proofs.UrgencyArith proofs.HttpProps proofs.HttpReach proofs.HttpLib2.
 
 (* the same history yields the same responses on the in-memory and the SQLite model (ids are
    supplied by the environment; times are whole seconds in the model) *)
@@ -36,3 +36,8 @@ Example C13_storage_calls_nonvacuous :
      CSetSnapshot (mkSnap 2%N 0%Z 0%N) [9%N]; CGetSnapshotData 2%N; CGetByParent 0%N; CGetVersion 3%N; CCommit])) = true /\
   Rs_im a_empty im_empty /\ Rs_sq a_empty sq_empty.
 Proof. split; [vm_compute; reflexivity|]. split; [exact Rs_im_empty|exact Rs_sq_empty]. Qed.
+
+(* as HTTP clients see it: every HTTP history is answered alike on both backends *)
+Theorem C13_http_backends_agree : forall cfg allow h, cfg_ok cfg -> horacle_ok h ->
+  hresponses BInMem cfg allow h = hresponses BSqlite cfg allow h.
+Proof. exact http_backends_agree. Qed.
